@@ -51,9 +51,21 @@ func RunHistory(d *leandrv.Driver, r *rng.R, idx int, res *report.Result, o RunO
 			fresh = false
 		}
 	}
+	// ... and within those of the token invariant (C01_no_stranded_step): additionally no cursor rewind, no skip value from a step
+	fresh2 := true
 	emit := func(a Action, line string) {
 		if a.Kind == "hctl" || a.Env.Stale != 0 {
 			fresh = false
+		}
+		if a.Kind == "rewind" {
+			fresh2 = false
+		}
+		if a.Kind == "step" && strings.HasPrefix(a.Tok, "st:") {
+			for _, o := range a.Env.Outcomes {
+				if strings.HasPrefix(o, "r:0:") || strings.HasPrefix(o, "r:-1:") {
+					fresh2 = false
+				}
+			}
 		}
 		for _, o := range a.Env.Outcomes {
 			if strings.HasPrefix(o, "n:") {
@@ -115,6 +127,21 @@ func RunHistory(d *leandrv.Driver, r *rng.R, idx int, res *report.Result, o RunO
 				}
 			default:
 				res.Count("history-theorem:excluded-feature:illegal")
+			}
+		}
+		if ans, err := d.Ask("tok"); err == nil && (ans == "pending" || ans == "stranded") {
+			within := fresh && fresh2
+			switch {
+			case ans == "pending" && within:
+				res.Count("token-theorem:within-hypotheses:pending")
+			case ans == "pending":
+				res.Count("token-theorem:excluded-feature:pending")
+			case within:
+				res.Violate(report.Violation{Property: "C01", Oracle: "token-theorem", Signature: "stranded-run-within-hypotheses",
+					Detail: "the model state reached by a history within the hypotheses of C01_no_stranded_step has a run persisted Initiated/Running whose announcement is neither in the outbox nor ahead of its step consumer: the theorem says this cannot happen",
+					Replay: History{Index: idx, Cfg: h.Cfg, Actions: append([]string{}, h.Actions...)}})
+			default:
+				res.Count("token-theorem:excluded-feature:stranded")
 			}
 		}
 	}
